@@ -102,6 +102,21 @@ pub fn explain(type_name: &str, d: &Diff, done: &Done) -> Option<&'static str> {
     None
 }
 
+/// Extra signature component for defects that are specific to a boundary
+/// value of a sibling field, so that the known-finding entry stays narrow.
+pub fn refine_signature(owner: &str, rel: &str, written: &Value, d: &Diff) -> String {
+    // Device: read-fonts computes the number of delta words from
+    // `end_size.saturating_add(1)`, which is one short for end_size = 0xFFFF
+    if owner == "Device" && rel.trim_start_matches('.') == "delta_value" && !d.cpath.is_empty() {
+        if let Some(parent) = get(written, &d.cpath[..d.cpath.len() - 1]) {
+            if parent.get("end_size").and_then(|v| v.as_u64()) == Some(0xFFFF) {
+                return ":end_size=0xFFFF".into();
+            }
+        }
+    }
+    String::new()
+}
+
 /// Read-side check for the known defect class: an array getter must not
 /// yield more elements than its count field says were written.
 pub fn direct_read_checks(ctx: &mut Ctx, font: &FontRef, origin: &str) {
